@@ -30,7 +30,7 @@ func runC06(c *Ctx) {
 		cs := ge.Calls(e.fn, nil, nil, nil, 0, map[*ssa.Function]int{})
 		found := false
 		for _, cf := range cs {
-			if cf.Callee != nil && FuncName(cf.Callee) == "(*consensus.MidState).ApplyBlock" && len(cf.Chain) == 1 {
+			if cf.Callee != nil && FuncName(cf.Callee) == "(consensus.MidState).ApplyBlock" && len(cf.Chain) == 1 {
 				ok := len(cf.Args) == 3 && cf.Args[0] == "call consensus.NewMidState({consensus.State})" && cf.Args[1] == "{types.Block}" && cf.Args[2] == "{consensus.V1BlockSupplement}"
 				c.Check(ok && len(cf.Ctx) == 0, "same-source", e.name+":midstate", c.P.Pos(cf.Pos), ifElse(ok, "effects computed by (*MidState).ApplyBlock on NewMidState(s) with the caller's block and supplement", "effects are computed with "+strings.Join(cf.Args, ", ")))
 				found = true
